@@ -1,4 +1,6 @@
 import NitroVerif.Lemmas.CheckOpSoundWitness
+import NitroVerif.Lemmas.IntRange
+import NitroVerif.Lemmas.CheckOpPreE3584a3
 /-!
 # C03 — `check` accepts no operation that violates an implemented validation rule
 
@@ -439,6 +441,87 @@ theorem C03_rule_5_6_1 (S : Schema) (D : Doc) (hS : SchemaValid S) (h : checkOp 
 example : SchemaValid wSchema ∧ checkOp wSchema wDoc = [] ∧ 10 ≤ nTypedValues wSchema wDoc := by decide +kernel
 example : rule_5_6_1 wSchema (wBad "5.6.1") = false ∧ checkOp wSchema (wBad "5.6.1") ≠ [] := by decide +kernel
 
+/-! #### the 32-bit range of Int literals (spec §3.5.1 inside 5.6.1; fix e3584a3) -/
+
+/-- `type Query { f(n: Int, l: [Int], x: In, fl: Float, id: ID): Int }  input In { a: Int }` -/
+def i32Schema : Schema := ⟨[
+  .typeDef { kind := .scalar, name := "Int" },
+  .typeDef { kind := .scalar, name := "Float" },
+  .typeDef { kind := .scalar, name := "String" },
+  .typeDef { kind := .scalar, name := "Boolean" },
+  .typeDef { kind := .scalar, name := "ID" },
+  .typeDef { kind := .input, name := "In", inputs := [{ name := "a", ty := .named "Int" {} }] },
+  .typeDef { kind := .object, name := "Query",
+             fields := [{ name := "f", ty := .named "Int" {},
+                          args := [{ name := "n", ty := .named "Int" {} },
+                                   { name := "l", ty := .list (.named "Int" {}) {} },
+                                   { name := "x", ty := .named "In" {} },
+                                   { name := "fl", ty := .named "Float" {} },
+                                   { name := "id", ty := .named "ID" {} }] }] }]⟩
+
+/-- `query Q($v: Int = -2147483648) { f(n: 2147483647, l: [$v, -0], x: {a: -2147483648}, fl: 4294967296, id: 12345678901234567890) }`:
+    the boundary values at Int positions, integers of any size at Float / ID positions -/
+def i32Doc : Doc := [
+  .op { kind := .query, name := some ("Q", {}),
+        vars := [{ name := "v", ty := .named "Int" {}, default := some (.int "-2147483648" {}) }],
+        sel := [.field none "f" {}
+                  [("n", {}, .int "2147483647" {}), ("l", {}, .list [.var "v" {}, .int "-0" {}] {}),
+                   ("x", {}, .obj [("a", {}, .int "-2147483648" {})] {}),
+                   ("fl", {}, .int "4294967296" {}), ("id", {}, .int "12345678901234567890" {})] [] none] }]
+
+/-- `query Q { f(n: 4294967296) }` (the literal at line 1, column 16) -/
+def i32BadDoc : Doc := [
+  .op { kind := .query, name := some ("Q", {}),
+        sel := [.field none "f" {} [("n", {}, .int "4294967296" { line := 1, col := 16 })] [] none] }]
+
+/-- Int literals are 32-bit values (spec §3.5.1 "Input Coercion", part of 5.6.1; the checker tests it since fix e3584a3):
+    if the checker reports nothing, then at every position of the document whose expected (innermost named) type is `Int`
+    — arguments of fields and directives, items of list literals, a single value given for a list, fields of
+    input-object literals at any nesting depth, variable default values — an integer literal denotes a value in
+    `[-2^31, 2^31)` (`rule_int32`, Spec/IntRange.lean). In particular (second clause, spelled out for the top level of
+    every typed value): the literal's text denotes an integer `i` with `-2147483648 ≤ i ≤ 2147483647`. -/
+theorem C03_int_literals_in_range (S : Schema) (D : Doc) (hS : SchemaValid S) (h : checkOp S D = []) :
+    rule_int32 S D = true ∧
+    ∀ tv ∈ typedValues S D, ∀ s p, tv.value = .int s p → tv.ty.unwrapped = "Int" →
+      ∃ i : Int, SpecInt.intValue? s.toList = some i ∧ -2147483648 ≤ i ∧ i ≤ 2147483647 := by
+  have hr := rule_int32_of_rule_5_6_1 S D (C03_rule_5_6_1 S D hS h)
+  refine ⟨hr, ?_⟩
+  intro tv htv s p hv ht
+  have := List.all_eq_true.mp hr tv htv
+  rw [hv] at this
+  simp only [intRangeOk, ht, beq_self_eq_true, Bool.not_true, Bool.false_or] at this
+  exact (IntLit.intLiteralFitsI32_iff s).mp (by rw [IntLit.intLiteralFitsI32_eq]; exact this)
+
+/-- the range is part of rule 5.6.1 of the reference validator (not an extra rule): a document that satisfies 5.6.1
+    has every Int literal at an Int position in range -/
+theorem C03_rule_5_6_1_contains_int_range (S : Schema) (D : Doc) (h : rule_5_6_1 S D = true) : rule_int32 S D = true :=
+  rule_int32_of_rule_5_6_1 S D h
+
+example : rule_5_6_1 i32Schema i32Doc = true ∧ rule_int32 i32Schema i32Doc = true := by decide +kernel
+
+/-- non-vacuity of `C03_int_literals_in_range`: an accepted document with the boundary values `2147483647`,
+    `-2147483648`, `-0` at Int positions (argument, list item, input field, variable default) and integers far beyond
+    32 bits at Float and ID positions; and the rule has teeth: one step beyond either boundary is rejected -/
+example : SchemaValid i32Schema ∧ checkOp i32Schema i32Doc = [] ∧ 6 ≤ (typedValues i32Schema i32Doc).length := by
+  decide +kernel
+example : rule_int32 i32Schema i32BadDoc = false ∧ rule_5_6_1 i32Schema i32BadDoc = false ∧
+    checkOp i32Schema i32BadDoc ≠ [] := by decide +kernel
+
+/-- PRE-REPAIR WITNESS (fix e3584a3): `query Q { f(n: 4294967296) }` with `n: Int`. The model of the checker as it was
+    before the fix (`PreE3584a3.CheckOp.checkOp`, `"Int" => matches!(value, IntValue(_) | NullValue(_))`) accepted it
+    although rule 5.6.1 of the reference validator (§3.5.1: an Int input is a 32-bit value) is violated; the model of
+    the repaired checker reports exactly one `TypeMismatch`, at the literal. The boundary cases `2147483648` and
+    `-2147483649` behave the same way. -/
+theorem C03_int_range_prerepair_witness :
+    SchemaValid i32Schema ∧
+    PreE3584a3.CheckOp.checkOp i32Schema i32BadDoc = [] ∧
+    rule_5_6_1 i32Schema i32BadDoc = false ∧ rule_int32 i32Schema i32BadDoc = false ∧
+    checkOp i32Schema i32BadDoc = [(ErrKind.TypeMismatch, { line := 1, col := 16 })] ∧
+    (∀ t ∈ ["2147483648", "-2147483649", "12345678901234567890"],
+      let D : Doc := [.op { kind := .query, name := some ("Q", {}), sel := [.field none "f" {} [("n", {}, .int t {})] [] none] }]
+      PreE3584a3.CheckOp.checkOp i32Schema D = [] ∧ rule_5_6_1 i32Schema D = false ∧ checkOp i32Schema D ≠ []) := by
+  decide +kernel
+
 /-- 5.6.2 Input Object Field Names: if the checker reports nothing, every field of every input-object literal
     is defined by the input-object type expected at its position. -/
 theorem C03_rule_5_6_2 (S : Schema) (D : Doc) (hS : SchemaValid S) (h : checkOp S D = []) : rule_5_6_2 S D = true :=
@@ -806,6 +889,10 @@ example : SchemaValid wSchema ∧ Doc.NonEmptySelections wDoc ∧ checkOp wSchem
 
 /-
 OPEN — carried by K/O only (stated, not proved): nothing of the C03 statement.
+
+Since fix e3584a3 rule 5.6.1 of the reference validator includes the 32-bit range of Int literals (spec §3.5.1); the
+former separate predicate `rule_int32` (an open finding of the real checker until then) is a proved consequence:
+`C03_int_literals_in_range`, `C03_rule_5_6_1_contains_int_range`, `C03_int_range_prerepair_witness`.
 
 Every implemented rule (25 of 25) is proved, the conjunction `C03_accepts_only_valid` included. What the theorems
 assume and K/O carry:
